@@ -37,15 +37,15 @@ type period struct {
 }
 
 type c12Msg struct {
-	tag      string
-	kind     string // "pub", "priv", "subject", "joinnote", "leavenote", "declnote"
-	slot     int
-	sender   int
-	iv       ival
-	payload  string // expected data / subject
-	about    uint16 // user id the notice is about
-	refused  bool   // sender lacked the privilege: nobody may receive it
-	reqID    uint32
+	tag     string
+	kind    string // "pub", "priv", "subject", "joinnote", "leavenote", "declnote"
+	slot    int
+	sender  int
+	iv      ival
+	payload string // expected data / subject
+	about   uint16 // user id the notice is about
+	refused bool   // sender lacked the privilege: nobody may receive it
+	reqID   uint32
 }
 
 func genC12(rng *rand.Rand, c *Case) {
@@ -129,9 +129,9 @@ func runC12(w *World) {
 	w.AddAccount("guest", "Guest", "", rp.Access{})
 	w.StartServer()
 
-	chatID := map[int][]byte{}            // slot -> chat id
-	periods := map[[2]int][]*period{}     // (slot, client) -> membership periods
-	loginRet := make([]uint64, n)         // step at which the login reply arrived (0 = never)
+	chatID := map[int][]byte{}        // slot -> chat id
+	periods := map[[2]int][]*period{} // (slot, client) -> membership periods
+	loginRet := make([]uint64, n)     // step at which the login reply arrived (0 = never)
 	loginInv := make([]uint64, n)
 	quit := make([]bool, n)
 	uid := make([]uint16, n)
